@@ -257,7 +257,15 @@ func ToQuestion(it Item) (*Question, error) {
 // Recipients performs recipient de-duplication on the Question's To, Bto, CC and BCC properties
 func (q *Question) Recipients() ItemCollection {
 	aud := q.Audience
-	return ItemCollectionDeduplication(&q.To, &q.CC, &q.Bto, &q.BCC, &ItemCollection{q.Actor}, &aud)
+	// the actors: one, or a list of them (a JSON array, even of one, is decoded to a list)
+	actors := ItemCollection{q.Actor}
+	if IsItemCollection(q.Actor) {
+		_ = OnItemCollection(q.Actor, func(col *ItemCollection) error {
+			actors = append(ItemCollection{}, *col...)
+			return nil
+		})
+	}
+	return ItemCollectionDeduplication(&q.To, &q.CC, &q.Bto, &q.BCC, &actors, &aud)
 }
 
 // Clean removes Bto and BCC properties
